@@ -202,3 +202,88 @@ def partition_dtype(repo, res):
         if diff:
             k0 = next(iter(diff))
             res.notes.append(f"the two generators declare different types for the same graph: {k0}: integral {diff[k0][0]}, expression {diff[k0][1]} ({len(diff)} nodes)")
+
+
+@rule(
+    "GEN-GEOMTABLES",
+    ["C19", "C04", "C02"],
+    "generate_geometry_tables of both generators interpreted on a sample IR with two quadrature rules on one cell type (and a second "
+    "cell type): every (reference-geometry class, cell name) that occurs in *any* integrand the kernel generates code for gets its "
+    "static table declared, each once - a table needed only by the first of two rules must not be lost (undeclared identifier in C)",
+    min_instances=2,
+)
+def gen_geomtables(repo, res):
+    import ast as _ast
+
+    from ..absint import _Cls
+
+    for modname, cls in ((IG, "IntegralGenerator"), (EG, "ExpressionGenerator")):
+        m = repo.mod(modname)
+        g = m.func(f"{cls}.generate_geometry_tables")
+        res.functions.add(g.key)
+        loc = m.line(g.node)
+        key = f"{g.key}:all-rules"
+        res.ob(key)
+        # names of the geometry classes the function's own map knows
+        gnames = []
+        for n in _ast.walk(g.node):
+            if isinstance(n, _ast.Dict):
+                for k in n.keys:
+                    d = _ast.unparse(k)
+                    if d.startswith("ufl.geometry."):
+                        gnames.append(d.split(".")[-1])
+        if len(gnames) < 5:
+            raise AnalysisError(f"{g.key}: geometry table map not found")
+        I = Interp(repo, load_classes(repo), primary=modname)
+        I.obj_classes = {cls: modname}
+        for nm in set(gnames) | {"GeometricFacetQuantity", "SpatialCoordinate", "Jacobian"}:
+            I.overrides[f"ufl.geometry.{nm}"] = _Cls(nm)
+        I.overrides["issubclass"] = _PyCall(lambda a, b: False)
+        written = []
+        I.overrides["geometry.write_table"] = _PyCall(lambda name, cellname: written.append((name, cellname)) or f"<table {cellname}_{name}>")
+        tri = Node("Mesh", ufl_cell=_PyCall(lambda: Node("Cell", cellname="triangle")))
+        I.overrides["ufl.domain.extract_unique_domain"] = _PyCall(lambda t: tri)
+        use = [gnames[0], gnames[3 % len(gnames)], gnames[-1], gnames[1]]
+
+        def graph(names):
+            nodes = {}
+            for k, nm in enumerate(names):
+                nodes[k] = {"expression": None, "mt": Node("ModifiedTerminal", terminal=Node(nm, name=nm), restriction=None), "status": "piecewise"}
+            nodes[len(nodes)] = {"expression": None, "status": "varying"}
+            nodes[len(nodes)] = {"expression": None, "mt": Node("ModifiedTerminal", terminal=Node("SpatialCoordinate", name="x")), "status": "varying"}
+            return Node("ExpressionGraph", nodes=nodes)
+
+        r1, r2 = Node("QuadratureRule", name="r1"), Node("QuadratureRule", name="r2")
+        if cls == "IntegralGenerator":
+            integrand = {("CellType.triangle", r1): {"factorization": graph([use[0], use[1]])}, ("CellType.triangle", r2): {"factorization": graph([use[2]])},
+                         ("CellType.interval", r1): {"factorization": graph([use[3]])}}
+            want = {use[0], use[1], use[2]}
+        else:
+            integrand = {("CellType.triangle", r1): {"factorization": graph([use[0], use[1], use[2]])}}
+            want = {use[0], use[1], use[2]}
+        gen = Node(cls, ir=Node("IR", expression=Node("CommonExpressionIR", integrand=integrand, entity_type="facet", integral_type="exterior_facet")),
+                   quadrature_rule=("CellType.triangle", r1))
+        byname = {"self": gen, "domain": "CellType.triangle"}
+        if not set(g.params) <= set(byname):
+            raise AnalysisError(f"{g.key}: parameters {g.params} not understood")
+        try:
+            I.call_f(g, [byname[p_] for p_ in g.params])
+        except Raised as e:
+            res.fail(key, f"{cls}.generate_geometry_tables raises ({e.what}) on the sample IR", loc)
+            continue
+        # map class -> table name from the function's own dict
+        tname = {}
+        for n in _ast.walk(g.node):
+            if isinstance(n, _ast.Dict):
+                for k, v in zip(n.keys, n.values):
+                    if _ast.unparse(k).startswith("ufl.geometry.") and isinstance(v, _ast.Constant):
+                        tname[_ast.unparse(k).split(".")[-1]] = v.value
+        got = [w_ for w_ in written if w_[1] == "triangle"]
+        missing = sorted(tname[c] for c in want if (tname[c], "triangle") not in got)
+        if missing:
+            res.fail(key, f"{cls}: the integrands of the triangle kernel (two quadrature rules) use the reference-geometry tables {sorted(tname[c] for c in want)}, but "
+                     f"{missing} is never declared - a table used only by one of several rules of the kernel is lost and the generated C refers to an undeclared identifier",
+                     loc)
+        dup = sorted({w_ for w_ in written if written.count(w_) > 1})
+        if dup:
+            res.fail(key, f"{cls}: the tables {dup} are declared twice (redefinition in C)", loc)
